@@ -959,7 +959,9 @@ def solve_sylvester_diagonal(
             array_eigs_a = np.array(eigs_A, dtype=object)  # Use numpy to reshape
             array_eigs_b = np.array(eigs_B, dtype=object)
             energy_denominators = sympy.Matrix(
-                np.resize(1 / (array_eigs_a.reshape(-1, 1) - array_eigs_b), Y.shape)
+                np.broadcast_to(
+                    1 / (array_eigs_a.reshape(-1, 1) - array_eigs_b), Y.shape
+                )
             ).subs(sympy.zoo, sympy.S.Zero)  # Take care of diagonal elements
             return energy_denominators.multiply_elementwise(Y)
         raise TypeError(f"Unsupported rhs type: {type(Y)}")
